@@ -1,0 +1,33 @@
+//go:build verif
+
+package parser
+
+// VerifHook is called at every synchronisation point of the parser
+// (see verif.go). lex identifies the lexer concerned and may be passed
+// to VerifLexer. The hook may block; its result is only meaningful at
+// verifPreSend.
+var VerifHook func(point int, lex interface{}) int
+
+func verifYield(point int, l *lexer) int {
+	if h := VerifHook; h != nil {
+		return h(point, l)
+	}
+	return 0
+}
+
+// VerifLexer describes a lexer passed to VerifHook: whether it has been
+// started for a command substitution and whether its cancel channel is
+// closed.
+func VerifLexer(lex interface{}) (nested, cancelled bool) {
+	l, _ := lex.(*lexer)
+	if l == nil {
+		return
+	}
+	nested = l.cmdSubst != 0
+	select {
+	case <-l.cancel:
+		cancelled = true
+	default:
+	}
+	return
+}
